@@ -144,8 +144,8 @@ class FortranRegularExpressions:
         r"[ ]*(MODULE|PROGRAM|SUBROUTINE|FUNCTION|INTERFACE)[ ]+", I
     )
     END: Pattern = compile(
-        r"[ ]*(END)("
-        r" |MODULE|PROGRAM|SUBROUTINE|FUNCTION|PROCEDURE|TYPE|DO|IF|SELECT)?",
+        r"[ ]*(END)[ ]*"
+        r"(MODULE|PROGRAM|SUBROUTINE|FUNCTION|PROCEDURE|TYPE|DO|IF|SELECT)?(?!\w)",
         I,
     )
     # Object regex patterns
